@@ -30,6 +30,23 @@ _RADIO_GROUPS: dict = {}  # radio buttons of one tree share groups (reset by eve
 _CUR_TREE = [0]  # which of the two trees (cached = 1, twin = 2) is being built / mutated
 
 
+_LAYOUTS = None
+
+
+def _layouts():
+    """Two layout objects: the standard one and one that breaks lines anywhere whatever the wrap mode says."""
+    global _LAYOUTS  # noqa: PLW0603
+    if _LAYOUTS is None:
+        from urwid import text_layout  # noqa: PLC0415
+
+        class AnywhereLayout(text_layout.StandardTextLayout):
+            def layout(self, text, width, align, wrap):
+                return super().layout(text, width, align, "any" if wrap == "space" else wrap)
+
+        _LAYOUTS = (text_layout.StandardTextLayout(), AnywhereLayout())
+    return _LAYOUTS
+
+
 class Node:
     __slots__ = ("aux", "kids", "kind", "spec", "w")
 
@@ -263,6 +280,10 @@ class _Run:
         w = n.w
         m = op.get("m", 0)
         txt = TEXTS[op.get("t", 0) % len(TEXTS)]
+        if t in ("Text", "SelectableIcon") and m >= 8:
+            # another layout object with the modes unchanged (a custom TextLayout swapped in at run time)
+            w.set_layout(w.align, w.wrap, _layouts()[op.get("t", 0) % 2])
+            return "layout"
         if t in ("Text", "SelectableIcon"):
             if m % 4 == 0:
                 w.set_text(txt)
